@@ -13,9 +13,9 @@ const EQUIV_TAGS: &[&str] = &["OUTCOME", "EARLY-STOP", "ERRSPAN", "OVERREAD", "P
 // ------------------------------------------------------------------------------------ C10
 
 const C10_CHARS: &[char] = &[
-    '\u{1c5}', '\\', '.', '+', '*', '?', '(', ')', '|', '[', ']', '{', '}', '^', '$', '#', '&', '-', '~', ' ', 'k', 'K', 's', 'S', 'é', 'É', 'ß', 'ſ', '\u{212A}', 'σ', 'ς', 'Σ', '€',
+    '\u{1c5}', '\\', '.', '+', '*', '?', '(', ')', '|', '[', ']', '{', '}', '^', '$', '#', '&', '-', '~', ' ', 'k', 'K', 's', 'S', 'é', 'É', 'ß', 'ſ', '\u{212A}', 'σ', 'ς', 'Σ', '€', '\u{130}', '\u{131}', '_', '`', '@',
 ];
-const C10_BYTES: &[u8] = &[b'a', b'K', 0x00, 0x7f, 0x80, 0xe9, 0xff, b'.', b'\\', b'['];
+const C10_BYTES: &[u8] = &[b'a', b'K', 0x00, 0x7f, 0x80, 0xe9, 0xff, b'.', b'\\', b'[', b'_', b'`', b'@', b'z', b'{'];
 
 /// harness-side escaping: every non-alphanumeric ASCII character as \x{HH}
 fn escape_str(w: &str) -> String {
